@@ -477,3 +477,143 @@ def search_ffill():
                 if not ok:
                     return {"group_idx": list(codes), "array": [repr(v) for v in vals]}, f"got {got} expected {exp}"
     return None
+
+
+def ffill_unsorted_contract():
+    """ffill for codes in any order: the stable sorting permutation around the sorted kernel and its inverse at the end.
+    `_prepare_for_flox` enters through its proved contract (else-branch: perm is an index array; for sorted codes the
+    stable permutation is the identity, so this also describes that case up to the `isinstance(perm, slice)` shortcut)."""
+    from ..pyvc.prims import stable_argsort
+
+    ghost = {}
+
+    def params(ex):
+        ghost.clear()
+        return {"group_idx": sym_seq("group_idx"), "array": sym_seq("array", V.Val), "axis": 0, "kwargs": {}}
+
+    def requires(ex, env):
+        return [env["group_idx"].length == env["array"].length, env["group_idx"].length >= 1]
+
+    def callee_prepare(ex, st, args, kwargs, node):
+        from ..pyvc.engine import State
+
+        gi, a = args
+        n = gi.length
+        # opaque / reveal: the facts about the permutation are kept out of the path condition while the lemmas about the
+        # sorted kernel are proved (they only distract the solver there) and are revealed where the inverse is taken
+        hidden = State()
+        perm = stable_argsort(ex, hidden, gi, {"kind": "stable"}, node)
+        _, p, inv, _ = perm.perm_of
+        st_main, st = st, st.fork()
+        for f in hidden.pc:
+            st.assume(f)
+        # the sorted arrays as sequences of their own, tied to the originals by their defining equations
+        # (keeps the lemmas about the sorted kernel free of the permutation)
+        ogi, oa = sym_seq("sorted_codes"), sym_seq("sorted_values", V.Val)
+        k_ = fresh("k")
+        st.assume(z3.And(ogi.length == n, oa.length == n))
+        st.assume(forall(k_, z3.Implies(in_range(k_, 0, n), ogi.at(k_) == gi.at(p(k_))), patterns=[ogi.at(k_)]))
+        st.assume(forall(k_, z3.Implies(in_range(k_, 0, n), oa.at(k_) == a.at(p(k_))), patterns=[oa.at(k_)]))
+        sorted_adj = forall(k_, z3.Implies(in_range(k_, 0, n - 1), ogi.at(k_) <= ogi.at(k_ + 1)))
+        if ex.oblige(st, sorted_adj, ex._name("lemma.sorted_codes_adjacent", node), "the permuted codes are sorted (from the contract of the stable argsort)"):
+            st.assume(sorted_adj)
+        stable_adj = forall(k_, z3.Implies(z3.And(in_range(k_, 0, n - 1), ogi.at(k_) == ogi.at(k_ + 1)), p(k_) < p(k_ + 1)))
+        if ex.oblige(st, stable_adj, ex._name("lemma.stable_adjacent", node), "equal neighbouring codes keep their original order (stability)"):
+            st.assume(stable_adj)
+        # only the derived facts go to the main state now
+        defs = [z3.And(ogi.length == n, oa.length == n),
+                forall(k_, z3.Implies(in_range(k_, 0, n), ogi.at(k_) == gi.at(p(k_))), patterns=[ogi.at(k_)]),
+                forall(k_, z3.Implies(in_range(k_, 0, n), oa.at(k_) == a.at(p(k_))), patterns=[oa.at(k_)])]
+        t = fresh("t")
+        reveal = list(hidden.pc) + defs[1:] + [
+            # triggers from the original arrays to the inverse permutation (every original position is some sorted position)
+            forall(t, z3.Implies(in_range(t, 0, n), z3.And(in_range(inv(t), 0, n), p(inv(t)) == t)), patterns=[a.at(t)]),
+            forall(t, z3.Implies(in_range(t, 0, n), z3.And(in_range(inv(t), 0, n), p(inv(t)) == t)), patterns=[gi.at(t)])]
+        st = st_main
+        st.assume(defs[0])
+        st.assume(sorted_adj)
+        st.assume(stable_adj)
+        ghost.update(gi=gi, a=a, p=p, inv=inv, ogi=ogi, oa=oa, n=n, reveal=reveal)
+        # lemmas about the sorted codes
+        i0, x = fresh("i0"), fresh("x")
+        ex.prove_induction(st, name="SORTED_PAIRWISE", k=x, lo=i0, hi=n - 1, prop=lambda u: ogi.at(i0) <= ogi.at(u), generalize=[i0], guard=z3.And(i0 >= 0, i0 < n), patterns=lambda u: [z3.MultiPattern(ogi.at(i0), ogi.at(u))])
+        ex.prove_induction(st, name="STABLE_PAIRWISE", k=x, lo=i0, hi=n - 1, prop=lambda u: z3.Implies(z3.And(u > i0, ogi.at(i0) == ogi.at(u)), p(i0) < p(u)), generalize=[i0], guard=z3.And(i0 >= 0, i0 < n),
+                           patterns=lambda u: [z3.MultiPattern(p(i0), p(u))])
+        return (ogi, oa, perm)
+
+    def argsort_model(ex, st, a, k, node):
+        """np.argsort(perm, kind='stable') of the sorting permutation: lemma INVERSE (two inductions): perm[q[t]] == t"""
+        perm = a[0]
+        for f in ghost.pop("reveal", []):
+            st.assume(f)
+        q = stable_argsort(ex, st, perm, {"kind": k.get("kind")}, node)
+        _, qf, qinv, _ = q.perm_of
+        p, n = ghost["p"], ghost["n"]
+        t = fresh("t")
+        f = lambda u: p(qf(u))
+        ex.prove_induction(st, name="INVERSE_LOWER", k=t, lo=0, hi=n - 1, prop=lambda u: f(u) >= u, patterns=lambda u: [qf(u)])
+        ex.prove_induction(st, name="INVERSE_UPPER", k=t, lo=0, hi=n - 1, prop=lambda u: f(u) <= u, direction="down", patterns=lambda u: [qf(u)])
+        ghost["q"] = qf
+        return q
+
+    def run_start(gi, j):
+        return z3.Or(j == 0, gi.at(j) != gi.at(j - 1))
+
+    def cut_idx(ex, env):
+        st = env["__state__"]
+        idx, gi, a = env["idx"], env["group_idx"], env["array"]
+        if not hasattr(idx, "running_max_of"):
+            return []
+        x, M = idx.running_max_of
+        n = a.length
+        masked = lambda j: z3.And(V.is_nan(a.at(j)), z3.Not(run_start(gi, j)))
+        t, j = fresh("t"), fresh("j")
+        ex.prove_induction(st, name="SOURCE_IN_RANGE", k=t, lo=0, hi=n - 1, prop=lambda u: z3.And(M(u) >= 0, M(u) <= u), patterns=lambda u: [M(u)])
+        ex.prove_induction(st, name="SOURCE_IS_VALID_OR_RUN_START", k=t, lo=0, hi=n - 1, prop=lambda u: z3.Not(masked(M(u))), patterns=lambda u: [M(u)])
+        ex.prove_induction(st, name="SOURCE_IN_THE_SAME_RUN", k=t, lo=0, hi=n - 1, prop=lambda u: gi.at(M(u)) == gi.at(u), patterns=lambda u: [M(u)])
+        ex.prove_induction(st, name="EVERYTHING_AFTER_THE_SOURCE_IS_MASKED", k=t, lo=0, hi=n - 1, prop=lambda u: forall(j, z3.Implies(z3.And(j > M(u), j <= u), masked(j))), patterns=lambda u: [M(u)])
+        ghost["M"] = M
+        return []
+
+    def ensures(ex, env, res):
+        from .scan import ffill_spec
+
+        e = env["__entry__"]
+        gi, a = e["group_idx"], e["array"]
+        cl = [("aligned_with_the_input", res.length == a.length)]
+        if "M" in ghost and "q" in ghost:
+            # intermediate clauses (chained): the sorted kernel's output meets the specification on the sorted arrays,
+            # and the result is that output read through the inverse permutation
+            M, q, ogi, oa, p, n = ghost["M"], ghost["q"], ghost["ogi"], ghost["oa"], ghost["p"], ghost["n"]
+            Fs = SSeq(n, lambda i: oa.at(M(i)), kind="array", elem_sort=V.Val, name="filled_sorted")
+            cl += [("sorted." + nm, f) for nm, f in ffill_spec(ogi, oa, Fs)]
+            t = fresh("t")
+            cl.append(("result_is_the_sorted_output_read_through_the_inverse_permutation", forall(t, z3.Implies(in_range(t, 0, n), z3.And(in_range(q(t), 0, n), p(q(t)) == t, res.at(t) == Fs.at(q(t)))))))
+        cl += ffill_spec(gi, a, res)
+        return cl
+
+    c = Contract(qualname="ffill", file="flox/aggregate_flox.py", prefix="C10.ffill_kernel.any_order", params=params, requires=requires, ensures=ensures, serves=("C10",),
+                 assumed=("np.maximum.accumulate is the running maximum", "ndarray.argsort(kind='stable')", "ndarray.nonzero / scatter store of a scalar / np.where / np.arange", "1-D view of the filled axis",
+                          "_prepare_for_flox through its proved contract (stable sorting permutation)"))
+    c.cuts = {"idx@out": cut_idx}
+    c.chain_ensures = True
+    c.replay = None
+    c.search = search_ffill_any
+    callees = {"_prepare_for_flox": callee_prepare, "isnull": callee_isnull}
+    return c, callees, argsort_model
+
+
+def search_ffill_any():
+    import itertools
+
+    nan = float("nan")
+    for n in (1, 2, 3, 4):
+        for codes in itertools.product((0, 1, 2), repeat=n):
+            for vals in itertools.product((1.0, nan, 2.0), repeat=n):
+                try:
+                    ok, got, exp = _ffill_check(list(codes), list(vals))
+                except Exception as e:
+                    return {"group_idx": list(codes), "array": [repr(v) for v in vals]}, f"raised {type(e).__name__}: {e}"
+                if not ok:
+                    return {"group_idx": list(codes), "array": [repr(v) for v in vals]}, f"got {got} expected {exp}"
+    return None
